@@ -9,7 +9,7 @@ open Lean
 
 namespace Driver.C20
 open Askar Askar.SecretBuf
-open Askar.SecretFmt (Alg Ty ErrCase LogSite Scenario)
+open Askar.SecretFmt (Alg Ty ErrCase LogSite Scenario FmtCfg)
 
 /-- data spec `{"s": seed, "n": len}`: byte i = 0x80 + ((s + 37 i + 11 (i / 128)) mod 128) — every content byte has its
     top bit set, which is what the instrumented allocator looks for in released blocks -/
@@ -142,7 +142,7 @@ def parseTy (s : String) : Option Ty :=
 
 def runFmt (j : Json) : Json :=
   match parseTy (str! j "ty") with
-  | some t => Json.mkObj [("leak", .bool (SecretFmt.leaky t))]
+  | some t => Json.mkObj [("leak", .bool (SecretFmt.leaky FmtCfg.current t))]
   | none => jerr "unknown type"
 
 def stepsJson (l : List (String × Bool)) : Json :=
@@ -163,7 +163,7 @@ def runLog (j : Json) : Json :=
   | "lifecycle" =>
     -- file-backed SQLite URI without credentials; the any.rs sites fire (open / provision / remove) together with label-only sites
     let s : Scenario := ⟨[.anyOptions, .label], false⟩
-    Json.mkObj [("leak", .bool s.leaks), ("steps", stepsJson lifecycleSteps)]
+    Json.mkObj [("leak", .bool (s.leaks FmtCfg.current)), ("steps", stepsJson lifecycleSteps)]
   | "uri" =>
     let s : Scenario := ⟨[.anyOptions, .label], true⟩
     let ew := arg.splitOn "/"
@@ -171,7 +171,7 @@ def runLog (j : Json) : Json :=
     let which := (ew.drop 1).headD "postgres"
     -- nothing connects; removing a SQLite file that does not exist is `Ok(false)`
     let ok := entry == "remove" && which == "sqlite"
-    Json.mkObj [("leak", .bool s.leaks), ("steps", stepsJson [(entry ++ "-" ++ which, ok)])]
+    Json.mkObj [("leak", .bool (s.leaks FmtCfg.current)), ("steps", stepsJson [(entry ++ "-" ++ which, ok)])]
   | _ => jerr "unknown scenario"
 
 def runKey (j : Json) : Json :=
